@@ -1,0 +1,47 @@
+//go:build verif
+
+package hotline
+
+import (
+	"context"
+	"io"
+)
+
+// Exported shims for the external verification harness (build tag "verif" only).
+// No logic lives here: every function forwards to the unexported production function.
+
+func (s *Server) VerifHandleNewConnection(ctx context.Context, rwc io.ReadWriteCloser, remoteAddr string) error {
+	return s.handleNewConnection(ctx, rwc, remoteAddr)
+}
+
+func (s *Server) VerifHandleFileTransfer(ctx context.Context, remoteAddr string, rwc io.ReadWriter) error {
+	return s.handleFileTransfer(context.WithValue(ctx, contextKeyReq, requestCtx{remoteAddr: remoteAddr}), rwc)
+}
+
+func (s *Server) VerifOutbox() chan Transaction { return s.outbox }
+
+func (s *Server) VerifSendTransaction(t Transaction) error { return s.sendTransaction(t) }
+
+func (s *Server) VerifProcessOutbox() { s.processOutbox() }
+
+func (s *Server) VerifKeepaliveHandler(ctx context.Context) { s.keepaliveHandler(ctx) }
+
+type (
+	VerifFlattenedFileObject = flattenedFileObject
+	VerifHandshake           = handshake
+	VerifTransfer            = transfer
+	VerifFolderUpload        = folderUpload
+	VerifFileWrapper         = fileWrapper
+)
+
+func VerifTransactionScanner(data []byte, atEOF bool) (int, []byte, error) {
+	return transactionScanner(data, atEOF)
+}
+
+func VerifPerformHandshake(rw io.ReadWriter) error { return performHandshake(rw) }
+
+func VerifReceiveFile(r io.Reader, targetFile, resForkFile, infoFork, counterWriter io.Writer) error {
+	return receiveFile(r, targetFile, resForkFile, infoFork, counterWriter)
+}
+
+func (f *fileWrapper) VerifFfo() *flattenedFileObject { return f.Ffo }
